@@ -17,6 +17,9 @@
 #include <map>
 #include <set>
 #include <string>
+#include <cerrno>
+#include <csignal>
+#include <poll.h>
 #include <sys/syscall.h>
 #include <sys/wait.h>
 #include <unistd.h>
@@ -130,6 +133,7 @@ template <class E> struct Driver {
   // process-global state of the code under test (a function-local static cache, say) cannot leak from one execution
   // into the next.  A child that dies reports class "crash".
   static bool &isolate() { static bool v = true; return v; }
+  static void kill_real(pid_t pid) { syscall(SYS_kill, pid, SIGKILL); }  // kill() itself is simulated in the xtp engine
   static Report run_plan(const Plan &p, const SchedSpec &spec) {
     if (!isolate()) return E::execute(p, spec);
     int fds[2];
@@ -143,7 +147,7 @@ template <class E> struct Driver {
       Report r = E::execute(p, spec);
       std::string out = report_to_json(r).dump();
       size_t off = 0;
-      while (off < out.size()) { ssize_t n = ::write(fds[1], out.data() + off, out.size() - off); if (n <= 0) break; off += (size_t)n; }
+      while (off < out.size()) { long n = syscall(SYS_write, fds[1], out.data() + off, out.size() - off); if (n <= 0) break; off += (size_t)n; }
       close(fds[1]);
       fflush(stdout);
       syscall(SYS_exit_group, 0);
@@ -151,11 +155,24 @@ template <class E> struct Driver {
     close(fds[1]);
     std::string in;
     char buf[65536];
-    ssize_t n;
-    while ((n = ::read(fds[0], buf, sizeof buf)) > 0) in.append(buf, (size_t)n);
+    // backstop: a child that neither finishes nor is ended by its own watchdog (its signal handlers may run on a
+    // heap the code under test has corrupted) is killed after 300 s of real time and counted as a crash of that run
+    int waited_s = 0;
+    bool timed_out = false;
+    for (;;) {
+      struct pollfd pf = {fds[0], POLLIN, 0};
+      int pr = poll(&pf, 1, 1000);
+      if (pr == 0) { if (++waited_s >= 300) { timed_out = true; kill_real(pid); break; } continue; }
+      if (pr < 0) { if (errno == EINTR) continue; break; }
+      long n = syscall(SYS_read, fds[0], buf, sizeof buf);
+      if (n > 0) { in.append(buf, (size_t)n); continue; }
+      if (n < 0 && errno == EINTR) continue;
+      break;
+    }
     close(fds[0]);
     int status = 0;
     waitpid(pid, &status, 0);
+    if (timed_out) in.clear();
     if (WIFEXITED(status) && (WEXITSTATUS(status) == 4 || WEXITSTATUS(status) == 5 || WEXITSTATUS(status) == 2)) {
       fflush(stdout);  // the child's watchdog (STALL line) or a harness error ended the run: pass it on unchanged
       syscall(SYS_exit_group, WEXITSTATUS(status));
@@ -262,7 +279,7 @@ template <class E> struct Driver {
   static void crash_line(const char *what) {
     char b[160];
     int n = snprintf(b, sizeof b, "\nCRASH %s\n", what);
-    if (write(1, b, (size_t)n) < 0) {}
+    if (syscall(SYS_write, 1, b, (size_t)n) < 0) {}  // raw: the engine's own write() consults tables a crashing run may have corrupted
   }
 
   static int usage() {
